@@ -273,6 +273,14 @@ func (g *ScopeGen) FunctionDef() string {
 		lines = append(lines, fmt.Sprintf("yield () -> %s", lv), fmt.Sprintf("%s = %s + 1", lv, lv), fmt.Sprintf("yield () -> %s * 10", lv), fmt.Sprintf("%s = %s + 1", lv, lv))
 		kind = "gen"
 		g.Escapes++
+	case 6: // closures written in a loop's iterator expression, collected and called after the loop
+		inner := &scopeEnv{locals: map[string]bool{}, outer: e.locals, depth: 1}
+		a, b := "() -> "+g.intExpr(inner, 1), "() -> "+g.intExpr(inner, 2)
+		lines = append(lines, "zr = []", "for zf <- elems(["+a+", "+b+"]) zr = zr + [zf]", "zfa = zr[0]", "zfb = zr[1]")
+		lines = append(lines, g.body(e, g.pick(2), &shadowed)...)
+		lines = append(lines, "[zfa(), zfb()]")
+		kind = "list"
+		g.Escapes++
 	case 3: // many variables: wide frames keep their values
 		wide := []string{}
 		for i := 0; i < 5+g.pick(36); i++ {
@@ -352,6 +360,14 @@ func (g *ScopeGen) Session() []string {
 			switch f.kind {
 			case "int":
 				top(call)
+			case "list":
+				// two activations with different arguments in one statement (recycled iterator contexts)
+				args2 := []string{}
+				for i := 0; i < f.params; i++ {
+					args2 = append(args2, g.intExpr(nil, 1))
+				}
+				top("[" + call + ", " + f.name + "(" + strings.Join(args2, ", ") + ")]")
+				top("for zq <- fromto(0, 2) " + call)
 			case "closure":
 				top("zc = " + call)
 				top(fmt.Sprintf("deep(%d)", []int{0, 50, 300}[g.pick(3)]))
